@@ -7,7 +7,7 @@ import copy
 import random
 import tempfile
 
-from harness.common import np
+from harness.common import quiet_loop, np
 from harness.oracles import viol
 from harness import scen
 from boario.simulation import Simulation  # noqa: E402
@@ -25,7 +25,7 @@ def run_records(sc, model=None, sim=None, register_stocks=False):
         sc["sim"]["register_stocks"] = True
     try:
         sim = sim if sim is not None else scen.build_sim(sc, model=model)
-        sim.loop()
+        quiet_loop(sim)
     except Exception as e:
         return {"error": f"{type(e).__name__}: {getattr(e, '__cause__', None) or e}"}
     out = {r: getattr(sim, r).to_numpy(dtype=float).copy() for r in RECORDS}
@@ -350,3 +350,72 @@ def c19_late(sc, base, seed):
     out += cmp_records("C19", ra, rb, f"all events delayed by {k} temporal units (long horizon)", rtol=1e-9, atol_scale=1e-9,
                        rows_a=slice(0, n), rows_b=slice(k, k + n))
     return out
+
+
+# ------------------------------------------------------------------ loop(): crash flag, horizon
+
+
+def c05_loop(sc, base, seed, tr=None):
+    """loop() (with the options of the scenario, progress bar included) stops where manual stepping meets the first
+    negative inventory and flags the run as crashed; otherwise it covers the horizon"""
+    out = []
+    if tr is None or "error" in base or tr.step_error or tr.build_error:
+        return out
+    # (a crashing step returns 1 before the clock is advanced: the time reached is the time of that step)
+    n_manual = (tr.steps[-1]["t"] + (0 if tr.crashed else int(sc["model"].get("dt", 1)))) if tr.steps else 0
+    if bool(base["crashed"]) != bool(tr.crashed):
+        out.append(viol("C05", n_manual, "loop() and manual stepping disagree on the crashed flag", loop=bool(base["crashed"]),
+                        manual=bool(tr.crashed), show_progress=bool(sc["sim"].get("show_progress"))))
+    elif tr.crashed and base["n"] != n_manual:
+        out.append(viol("C05", n_manual, "loop() did not stop at the step where an inventory became negative", loop_units=base["n"], manual_units=n_manual))
+    # the same run with the progress bar switched the other way
+    tw = copy.deepcopy(sc)
+    tw["sim"]["show_progress"] = not sc["sim"].get("show_progress", False)
+    b = run_records(tw)
+    if "error" not in b and (b["crashed"] != base["crashed"] or b["n"] != base["n"]):
+        out.append(viol("C05", 0, "the crashed flag / number of temporal units simulated depends on show_progress",
+                        with_bar=(b["crashed"], b["n"]) if tw["sim"]["show_progress"] else (base["crashed"], base["n"]),
+                        without_bar=(base["crashed"], base["n"]) if tw["sim"]["show_progress"] else (b["crashed"], b["n"])))
+    return out
+
+
+def long_loop(sc, base, seed, pid="C10"):
+    """a run longer than the periodic equilibrium checks of loop() (every 182 temporal units), with the scenario's first
+    event moved late: loop() covers the whole horizon and the late event acts on schedule"""
+    out = []
+    if seed % 5 != 0:
+        return out
+    dt = int(sc["model"].get("dt", 1))
+    tw = copy.deepcopy(sc)
+    T = 800 * dt
+    tw["T"] = T
+    tw["sim"]["show_progress"] = False
+    late = T - 40 * dt
+    tw["events"] = copy.deepcopy(sc["events"][:1])
+    for e in tw["events"]:
+        e["occ"], e["dur"] = late, 1
+    b = run_records(tw)
+    if "error" in b:
+        return out
+    if not b["crashed"] and b["n"] != T:
+        out.append(viol(pid, b["n"], f"loop() simulated {b['n']} temporal units of a horizon of {T}"))
+        return out
+    rec = b["production_realised"]
+    last = rec[T - dt]
+    if not b["crashed"] and not np.isfinite(last).all():
+        out.append(viol(pid, T - dt, "the last step of a long run was not recorded"))
+    if tw["events"] and not b["crashed"]:
+        cap = b["production_capacity"]
+        before, at = cap[late - dt if late % dt == 0 else (late // dt) * dt], cap[((late + dt - 1) // dt) * dt]
+        if np.allclose(before, at, rtol=1e-12, atol=0) and tw["events"][0]["type"] != "rebuild":
+            # (a rebuilding event also changes capacity at its occurrence; kept simple: any event must move the capacity)
+            out.append(viol(pid, late, f"an event occurring at {late} in a long run never acted on the production capacity"))
+        elif np.allclose(before, at, rtol=1e-12, atol=0):
+            out.append(viol(pid, late, f"an event occurring at {late} in a long run never acted on the production capacity"))
+    return out
+
+
+def long_loop_c01(sc, base, seed):
+    tw = copy.deepcopy(sc)
+    tw["events"] = []
+    return long_loop(tw, base, seed, pid="C01")
